@@ -488,6 +488,7 @@ def run(M, rec, tier, seed, k, n):
         relations(M, rec, rng, 160 if tier == "quick" else 1200, symvals)
         multistep_neutral(M, rec, rng, G.NetGen(rng), 40 if tier == "quick" else 300)
         relocated_signs(M, rec, rng, G.NetGen(rng), 40 if tier == "quick" else 300)
+        W.preallocated_buffers(M, rec, rng, PROP, 24 if tier == "quick" else 240, force=("vsl",), what="a speed-limited network (limits switched to infinity in place)")
         ensemble_neutral_ramp_controls(M, rec, rng, 40 if tier == "quick" else 400)
     finally:
         pm.uninstall()
